@@ -288,7 +288,7 @@ func c13RandText(r *rand.Rand, n int) []rune {
 func toks(src string) Req { return Req{Op: "tokens", Src: Runes(src)} }
 
 func checkC13(c *Ctx) {
-	c.rule = "forward: random texts (length <= 200, biased to the ten quote characters, backtick, CR, LF, TAB, letters of the escape names, +, hex digits, NUL, CJK, astral) written as literals of the five quote spellings by an encoder that picks, per character, any rule-conformant spelling (raw, `CR` `LF` `CRLF` `TAB` `SP` `BK`, `U+hex`, backtick-wrapped unpaired quote, raw balanced pairs); zh.NextToken must return one token of the right type whose literal is the text, then EOF; for “ ”, 「 」 and 《 》 (the three documented ways to write a text value) also 输出‹literal› end to end. reverse: all strings up to length 3 (quick) / 4 (thorough) plus random longer ones over a 28-symbol critical alphabet placed between the outer quotes of three families, against a three-valued reference decoder (value / unterminated = syntax error / unspecified where four readings of 'other backtick text is kept literally' differ or a U+ escape is not a scalar value). distinct_nontrivial = distinct (direction, family, escape kinds used / reference outcome class + content)"
+	c.rule = "forward: random texts (length <= 200, biased to the ten quote characters, backtick, CR, LF, TAB, letters of the escape names, +, hex digits, NUL, CJK, astral) written as literals of the five quote spellings by an encoder that picks, per character, any rule-conformant spelling (raw, `CR` `LF` `CRLF` `TAB` `SP` `BK`, `U+hex`, backtick-wrapped unpaired quote, raw balanced pairs); zh.NextToken must return one token of the right type whose literal is the text, then EOF; for “ ”, 「 」 and 《 》 (the three documented ways to write a text value) also 输出‹literal› end to end; programs that end inside an unclosed literal (five opening quotes x five bodies x eleven positions: after each kind of comment, after a statement, in a declaration, a block, an argument list) must be syntax errors. reverse: all strings up to length 3 (quick) / 4 (thorough) plus random longer ones over a 28-symbol critical alphabet placed between the outer quotes of three families, against a three-valued reference decoder (value / unterminated = syntax error / unspecified where four readings of 'other backtick text is kept literally' differ or a U+ escape is not a scalar value). distinct_nontrivial = distinct (direction, family, escape kinds used / reference outcome class + content)"
 	c.assumptions = []string{"token type codes 2/6/7 for the three literal families and 0 for EOF", "cases where the documented rules admit more than one reading are skipped and counted"}
 	rng := c.Rand("c13")
 
@@ -363,6 +363,50 @@ func checkC13(c *Ctx) {
 			c.Violation("e2e:"+f.fam.name+":"+f.src, fmt.Sprintf("输出%s yields %s, expected text %q", clip(f.src, 200), clip(got, 200), clip(string(f.text), 200)), map[string]interface{}{"req": req})
 		}
 	})
+
+	// an unterminated literal is a syntax error wherever it stands in a program: as the first
+	// thing after each kind of comment, after a statement, inside a block, in an argument list
+	{
+		type up struct{ name, src string }
+		ups := []up{}
+		opens := []string{"“", "「", "《", "‘", "『"}
+		bodies := []string{"天地玄黄", "", "甲“乙”丙", "第一行\n第二行", "`CR`x"}
+		prefixes := map[string]string{
+			"after-annotation":          "令甲 = 1\n注：备注\n",
+			"after-numbered-annotation": "令甲 = 1\n注1：“备注”\n",
+			"after-line-comment":        "令甲 = 1\n// 备注\n",
+			"after-block-comment":       "令甲 = 1\n/* 备\n注 */\n",
+			"after-two-comments":        "注：一\n// 二\n",
+			"after-statement":           "令甲 = 1\n",
+			"at-start":                  "",
+			"in-declaration":            "令甲 = 1\n令乙 = ",
+			"in-block":                  "如果 真：\n\t注：内\n\t",
+			"in-arguments":              "（显示：1、",
+			"after-comment-on-same-line": "令甲 = 1 /* 备注 */ ",
+		}
+		for _, pn := range SortedKeys(prefixes) {
+			for oi, o := range opens {
+				for bi, b := range bodies {
+					if (oi+bi)%2 == 1 && c.Quick() {
+						continue
+					}
+					ups = append(ups, up{pn + "/" + o, prefixes[pn] + o + b})
+				}
+			}
+		}
+		ureqs := make([]Req, len(ups))
+		for i, u := range ups {
+			ureqs[i] = execReq(u.src)
+		}
+		c.runBatches(ureqs, 100, func(i int, req *Req, resp *Resp) {
+			c.Eval()
+			u := ups[i]
+			c.Nontrivial("unterminated|" + u.name + "|" + resp.Kind)
+			if resp.Kind != "error" || resp.Err == nil || resp.Err.Class != "syntax" {
+				c.Violation("unterminated:"+u.name+":"+u.src, fmt.Sprintf("the program %q ends inside a literal that is never closed, but the outcome is %s (a syntax error is required)", u.src, clip(resp.Outcome(), 120)), map[string]interface{}{"req": req})
+			}
+		})
+	}
 
 	// ---------------------------------------------------------------- reverse
 	crit := []rune("“”「」‘’『』《》`\r\nCRLFTABSPKU+04Ex")
